@@ -297,6 +297,39 @@ func (c14) Run(e *simkit.Env, cc any) {
 	}
 
 	// ---- reverse relations: a target on A watched from B and by a bystander on A ----
+	// restart: a process of b's first incarnation leaves an unanswered request behind at a process of a
+	var heldFrom gen.PID
+	var heldRef gen.Ref
+	heldCh := make(chan struct{})
+	if c.Fault == "restart" {
+		hh := &Hooks{Name: "holder", Env: e}
+		hh.Call = func(p *Probe, from gen.PID, ref gen.Ref, req any) (any, error) {
+			if req == "hold-me" {
+				heldFrom, heldRef = from, ref
+				close(heldCh)
+			}
+			return nil, nil // answered later (never, as far as the caller is concerned)
+		}
+		if _, err := a.SpawnRegister("holder", ProbeFactory(hh), gen.ProcessOptions{}); err != nil {
+			e.Infra("spawn holder: " + err.Error())
+			return
+		}
+		ch := &Hooks{Name: "bcaller", Env: e}
+		ch.Message = func(p *Probe, from gen.PID, m any) error {
+			p.CallWithTimeout(gen.ProcessID{Name: "holder", Node: "a@h1"}, "hold-me", 5)
+			return nil
+		}
+		cp, err := b.Spawn(ProbeFactory(ch), gen.ProcessOptions{})
+		if err != nil {
+			e.Infra("spawn bcaller: " + err.Error())
+			return
+		}
+		b.Send(cp, "go")
+		if !e.WaitChan(heldCh, time.Minute) {
+			e.Fail("C14/unexpected-failure", "a request of a process on b@h2 did not reach its callee on a@h1 within a simulated minute")
+			return
+		}
+	}
 	if len(c.Reverse) > 0 {
 		var lAlias gen.Alias
 		lh := &Hooks{Name: "ltarget", Env: e}
@@ -898,6 +931,9 @@ func (c14) Run(e *simkit.Env, cc any) {
 		res["monitor"] = p.MonitorPID(tPID)
 		res["send-alias"] = p.Send(tAlias, "old-alias-send")
 		res["send-important"] = p.SendImportant(tPID, "old-id-important")
+		// late answers to the request a process of the previous incarnation left behind
+		res["response"] = p.SendResponse(heldFrom, heldRef, "late-answer")
+		res["response-error"] = p.SendResponseError(heldFrom, heldRef, fmt.Errorf("late-error"))
 		close(pdone)
 		return nil
 	}
@@ -914,7 +950,7 @@ func (c14) Run(e *simkit.Env, cc any) {
 	if sameCreation {
 		tag = " [node restarted within the same second: same creation value]"
 	}
-	for _, op := range []string{"send", "call", "link", "monitor", "send-alias", "send-important"} {
+	for _, op := range []string{"send", "call", "link", "monitor", "send-alias", "send-important", "response", "response-error"} {
 		if !errors.Is(res[op], gen.ErrProcessIncarnation) {
 			e.Fail("C14/old-incarnation-accepted", "%s with an identifier of the previous incarnation of b@h2 (restarted after %dms) returned %v instead of the incarnation error%s", op, c.RestartMs, res[op], tag)
 			return
